@@ -32,14 +32,19 @@ def change_set(r, existing=None):
     return cs
 
 
-def ops_of(cs, order):
+def ops_of(cs, order, bstate=None, delta=False):
+    """delta: balances are changed through AddBalance / SubBalance (the EVM / role-contract paths) instead of SetBalance"""
     ops = []
     for t in order:
         v = cs[t]
         if t[1] == "k":
             ops.append(f"set {t[0]} {t[2]} {v}" if v is not None else f"del {t[0]} {t[2]}")
         elif t[1] == "bal":
-            ops.append(f"setbal {t[0]} {v}")
+            cur = (bstate or {}).get((t[0], "bal"), 0)
+            if delta and v != cur and (v > cur or cur > 0):
+                ops.append(f"addbal {t[0]} {v - cur}")
+            else:
+                ops.append(f"setbal {t[0]} {v}")
         elif t[1] == "nonce":
             ops.append(f"setnonce {t[0]} {v}")
         else:
@@ -121,7 +126,9 @@ def gen_state(rng, n, tier):
             ops += base
             if extra == "shuffled+reads":
                 # exactly one kind of variation per history, so that a differing root is attributed to it
-                variant = r.choice(["shuffle", "reopen", "evict", "reads", "overwritten", "noop-account-write"])
+                variant = r.choice(["shuffle", "reopen", "evict", "reads", "overwritten", "noop-account-write", "balance-by-delta", "balance-by-delta"])
+                if variant == "balance-by-delta" and not any(t[1] == "bal" for t in c):
+                    variant = "shuffle"
                 if variant == "reopen" and hbase:
                     ops.append("reopen")
                 elif variant == "evict" and hbase:
@@ -146,7 +153,10 @@ def gen_state(rng, n, tier):
                         else:
                             ops.append(f"setnonce {a} {bstate.get((a, 'nonce'), 0)}")
                 tags.add("variant:" + variant)
-            ops += ops_of(c, order)
+            by_delta = (extra == "shuffled+reads" and variant == "balance-by-delta") or (extra == "perturbed" and r.random() < 0.4)
+            if by_delta and any(t[1] == "bal" for t in c):
+                tags.add("balance-by-delta:" + extra)
+            ops += ops_of(c, order, bstate, delta=by_delta)
             ops += ["finalise", "flush"]
         hs.append(History(ops, tags=tags))
     return hs
